@@ -443,6 +443,76 @@ pub fn position_features(p: &Pos, legal: &[Mv]) -> Vec<&'static str> {
     f
 }
 
+/// "Capture storm": two nearly full ranks of one side's men with the other side's queens, rooks and
+/// knights right in front of and behind them, the side with the heavy pieces to move - 30 to 60
+/// legal captures in one position (list capacities, narrow counters of the capture generator).
+pub fn capture_storm_position(rng: &mut Rng) -> Pos {
+    loop {
+        let mut p = Pos::empty();
+        let att = if rng.chance(1, 2) { Color::White } else { Color::Black };
+        let def = if att == Color::White { Color::Black } else { Color::White };
+        // squares are rank * 8 + file; the defender's men on ranks r and r+1, attackers on r-1 and r+2
+        let r = rng.range(2, 5) as usize; // defender ranks r, r+1 (0-based 2..=4 -> never the edge ranks)
+        let mut def_left: Vec<Kind> = vec![Kind::Knight, Kind::Knight, Kind::Bishop, Kind::Bishop, Kind::Rook, Kind::Rook, Kind::Queen];
+        rng.shuffle(&mut def_left);
+        let mut pawns = 8;
+        for rank in [r, r + 1] {
+            for f in 0..8 {
+                if rng.chance(1, 10) {
+                    continue;
+                }
+                let k = if pawns > 0 && rng.chance(1, 2) {
+                    pawns -= 1;
+                    Kind::Pawn
+                } else if let Some(k) = def_left.pop() {
+                    k
+                } else if pawns > 0 {
+                    pawns -= 1;
+                    Kind::Pawn
+                } else {
+                    continue;
+                };
+                p.sq[rank * 8 + f] = Some((def, k));
+            }
+        }
+        let mut queens = 0;
+        let mut others: Vec<Kind> = vec![Kind::Knight, Kind::Knight, Kind::Rook, Kind::Rook, Kind::Bishop, Kind::Bishop];
+        rng.shuffle(&mut others);
+        for rank in [r - 1, r + 2] {
+            for f in 0..8 {
+                if rng.chance(1, 8) {
+                    continue;
+                }
+                let k = if queens < 9 && rng.chance(2, 3) {
+                    queens += 1;
+                    Kind::Queen
+                } else if let Some(k) = others.pop() {
+                    k
+                } else {
+                    continue;
+                };
+                p.sq[rank * 8 + f] = Some((att, k));
+            }
+        }
+        // kings on free squares of the remaining ranks
+        let free: Vec<usize> = (0..64).filter(|s| p.sq[*s].is_none() && (s / 8 + 1 < r || s / 8 > r + 2)).collect();
+        if free.len() < 2 {
+            continue;
+        }
+        let a = free[rng.below(free.len() as u64) as usize];
+        let b = free[rng.below(free.len() as u64) as usize];
+        if a == b {
+            continue;
+        }
+        p.sq[a] = Some((att, Kind::King));
+        p.sq[b] = Some((def, Kind::King));
+        p.stm = att;
+        if is_legal_position(&p) && has_legal_move(&p) {
+            return p;
+        }
+    }
+}
+
 /// "Queen storm": a legal position with many mutually attacking queens (and a few other pieces)
 /// and both kings tucked away behind their own men, so that capture sequences explode.
 pub fn queen_storm_position(rng: &mut Rng) -> Pos {
